@@ -333,8 +333,8 @@ func stress(r *mon.Run, c Case) {
 	}
 	close(start)
 	stopWatch := deadlockWatch(r, c, &progress)
+	defer close(stopWatch) // covers the stress loop, the sequential re-check and the herd phase
 	wg.Wait()
-	close(stopWatch)
 	r.EvalN(int64(c.Clients * c.Ops))
 	r.Eval([]byte(c.Stream))
 	r.HistN("stress/operations", int64(c.Clients*c.Ops))
@@ -353,14 +353,14 @@ func stress(r *mon.Run, c Case) {
 		r.Violate("concurrent/precomputed-table-modified", "table digest changed during the stress run", c)
 	}
 	inspectCache(r, inner, capacity, c)
-	herd(r, c, rng)
+	herd(r, c, rng, &progress)
 }
 
 // herd: every goroutine makes the SAME call with the SAME arguments at the same moment (released together by a closed
 // channel), round after round, on a shared caching verifier that does not hold the key yet: concurrent misses for one
 // key. The keys are the ones a verifier meets in the wild: valid, undecodable, of small order, non-canonical. Each
 // call's result (or panic) is compared with what the call gives sequentially.
-func herd(r *mon.Run, c Case, rng *rand.Rand) {
+func herd(r *mon.Run, c Case, rng *rand.Rand, progress *int64) {
 	priv := ed25519.NewKeyFromSeed(mon.Bytes(rng, 32))
 	msg := mon.Bytes(rng, 33)
 	sig := ed25519.Sign(priv, msg)
@@ -416,6 +416,7 @@ func herd(r *mon.Run, c Case, rng *rand.Rand) {
 							v.AddWithOptions(bv, h.pk, msg, h.sig, h.opts)
 							gotB, _ = bv.Verify(nil)
 						})
+						atomic.AddInt64(progress, 1)
 						if pan != wantPan || (!pan && (got != want || gotB != want)) {
 							if atomic.AddInt64(&bad, 1) == 1 {
 								first.Store(fmt.Sprintf("%s: goroutine %d round %d: Verify=%v batch=%v panic=%v (%s); sequentially %v panic=%v", h.name, g, round, got, gotB, pan, pmsg, want, wantPan))
